@@ -30,6 +30,8 @@
 (*   <<"b", t>>        truth value t as 1/0 of the element type            *)
 (*   <<"clamp", t, lo, hi>>                                                *)
 (*   <<"arg", f, <<t...>>>> first index of the maximum / minimum           *)
+(*   <<"argm", f, <<t...>>, <<p...>>>> the same over the unmasked elements  *)
+(*                     t of a masked fibre, which sit at positions p        *)
 (* The harness evaluates a term with Go's own operator of the element      *)
 (* type; Interp.tla evaluates it over the integers.                        *)
 (***************************************************************************)
@@ -603,11 +605,21 @@ ArgT(S, h, f, axis) ==
         r == Len(t.shape)
         A == IF axis = -1 THEN 1..r ELSE {axis + 1}
         osh == ReducedShape(t.shape, A)
+        masked == IsMaskedT(S, t)
+        fib(k) == Fibre(t.shape, t.cells, A, k - 1)
+        (* a masked tensor: masked elements do not take part; the index is still the position along the axis.
+           Only constant masks are given a meaning here; a fibre that is masked entirely has no extreme *)
+        keep(k) == {j \in 1..Len(fib(k)) : MaskBit(S, fib(k)[j]) = MF}
+        constMask == \A c \in Range(t.cells) : MaskBit(S, c) \in {MT, MF}
         vals == [k \in 1..Prod(osh) |->
-                   <<"arg", f, ValuesOf(S, Fibre(t.shape, t.cells, A, k - 1))>>]
+                   IF ~masked THEN <<"arg", f, ValuesOf(S, fib(k))>>
+                   ELSE LET ps == SortedSeq(keep(k))
+                        IN <<"argm", f, [i \in 1..Len(ps) |-> S.heap[fib(k)[ps[i]]]], [i \in 1..Len(ps) |-> ps[i] - 1]>>]
     IN IF axis < -1 \/ axis >= r THEN Free(S)
+       ELSE IF masked /\ (~constMask \/ \E k \in 1..Prod(osh) : keep(k) = {}) THEN Free(S)
        ELSE LET o == FreshResult(S, osh, "C", vals, "int")
-            IN Out(o.S, [o.res EXCEPT !.ref = TRUE])
+                S1 == IF masked THEN [o.S EXCEPT !.allocs[Len(o.S.allocs)].mopen = TRUE] ELSE o.S   \* whether the result carries a mask is not stated
+            IN Out(S1, [o.res EXCEPT !.ref = TRUE])
 
 (***************************************************************************)
 (* Products: every element of the result is a sum of products over the     *)
